@@ -232,6 +232,169 @@ def fingerprints() -> dict[str, str]:
     return out
 
 
+# ---------------------------------------------------------------- literal constants and defaults on the render path
+def _find_func(mod: ast.Module, qual: str):
+    parts = qual.split(".")
+    body = mod.body
+    node = None
+    for i, nm in enumerate(parts):
+        node = None
+        for n in body:
+            if isinstance(n, (ast.FunctionDef, ast.ClassDef)) and n.name == nm:
+                node = n
+        if node is None:
+            return None
+        body = node.body
+    return node if isinstance(node, ast.FunctionDef) else None
+
+
+def _strip_doc(fn: ast.FunctionDef):
+    body = list(fn.body)
+    if body and isinstance(body[0], ast.Expr) and str_const(body[0].value) is not None:
+        body = body[1:]
+    return body
+
+
+def _str_consts(fn: ast.FunctionDef) -> list[str]:
+    out = []
+    for st in _strip_doc(fn):
+        for n in ast.walk(st):
+            if isinstance(n, ast.Constant) and isinstance(n.value, str):
+                out.append(n.value)
+    return out
+
+
+def _default(fn: ast.FunctionDef, name: str):
+    """('ok', value) for a constant default of parameter `name`, else ('missing',)"""
+    a = fn.args
+    pos = a.posonlyargs + a.args
+    for arg, d in zip(pos[len(pos) - len(a.defaults):], a.defaults):
+        if arg.arg == name and isinstance(d, ast.Constant):
+            return ("ok", d.value)
+    for arg, d in zip(a.kwonlyargs, a.kw_defaults):
+        if arg.arg == name and isinstance(d, ast.Constant):
+            return ("ok", d.value)
+    return ("missing",)
+
+
+def _kwarg_const(fn: ast.FunctionDef, callee: str, kw: str) -> list:
+    out = []
+    for st in _strip_doc(fn):
+        for n in ast.walk(st):
+            if isinstance(n, ast.Call) and isinstance(n.func, ast.Name) and n.func.id == callee:
+                for k in n.keywords:
+                    if k.arg == kw and isinstance(k.value, ast.Constant):
+                        out.append(k.value.value)
+    return out
+
+
+def _mult_units(fn: ast.FunctionDef) -> list[str]:
+    out = []
+    for st in _strip_doc(fn):
+        for n in ast.walk(st):
+            if isinstance(n, ast.BinOp) and isinstance(n.op, ast.Mult) and str_const(n.left) is not None:
+                out.append(n.left.value)
+    return out
+
+
+def _join_seps(fn: ast.FunctionDef) -> list[str]:
+    out = []
+    for st in _strip_doc(fn):
+        for n in ast.walk(st):
+            if (isinstance(n, ast.Call) and isinstance(n.func, ast.Attribute) and n.func.attr == "join"
+                    and str_const(n.func.value) is not None):
+                out.append(n.func.value.value)
+    return out
+
+
+def _replace_args(fn: ast.FunctionDef) -> list[tuple]:
+    out = []
+    for st in _strip_doc(fn):
+        for n in ast.walk(st):
+            if (isinstance(n, ast.Call) and isinstance(n.func, ast.Attribute) and n.func.attr == "replace"
+                    and len(n.args) >= 2 and all(str_const(x) is not None for x in n.args[:2])):
+                out.append((n.args[0].value, n.args[1].value))
+    return out
+
+
+def consts_lean(core: ast.Module) -> tuple[str, list[str]]:
+    problems: list[str] = []
+    defs: list[str] = []
+
+    def one(name, values, what):
+        vals = sorted(set(values))
+        if len(vals) == 1:
+            return vals[0]
+        problems.append(f"const {name}: expected exactly one {what}, found {vals!r}")
+        return None
+
+    def emit_str(name, v, doc):
+        defs.append(f"/-- {doc} -/\ndef {name} : Option Str := " + ("none" if v is None else "some " + lstr(v)))
+
+    def emit_dflt(name, fnq, param, doc):
+        fn = _find_func(core, fnq)
+        d = _default(fn, param) if fn is not None else ("missing",)
+        if d[0] != "ok":
+            problems.append(f"default {fnq}({param}=…) not found as a constant")
+            defs.append(f"/-- {doc} -/\ndef {name} : Option (Option Str × Option Bool × Option Nat) := none")
+            return
+        v = d[1]
+        s = "some " + lstr(v) if isinstance(v, str) else "none"
+        b = ("some " + lbool(v)) if isinstance(v, bool) else "none"
+        n = ("some " + str(v)) if (isinstance(v, int) and not isinstance(v, bool) and v >= 0) else "none"
+        defs.append(f"/-- {doc} (as str / bool / nat; all `none` = the constant `None`) -/\n"
+                    f"def {name} : Option (Option Str × Option Bool × Option Nat) := some ({s}, {b}, {n})")
+
+    f = lambda q: _find_func(core, q)
+    fn = f("HTMLDocument.render")
+    emit_str("doctypeLit", one("doctype", [c for c in (_str_consts(fn) if fn else []) if c.startswith("<!")], "'<!…' literal"), "the doctype prefix written by HTMLDocument.render")
+    fn = f("HTMLDocument._hoist_head_content")
+    emit_str("listingTypeDoc", one("listingTypeDoc", _kwarg_const(fn, "Tag", "type") if fn else [], "Tag(..., type=<const>)"), "type= of the dependency listing script (HTMLDocument)")
+    emit_str("listingSepDoc", one("listingSepDoc", _join_seps(fn) if fn else [], "'<sep>'.join"), "separator of the listing (HTMLDocument)")
+    emit_str("charsetLit", one("charset", _kwarg_const(fn, "Tag", "charset") if fn else [], "Tag('meta', charset=<const>)"), "charset of the meta tag put first in <head>")
+    fn = f("HTMLTextDocument.render")
+    emit_str("listingTypeText", one("listingTypeText", _kwarg_const(fn, "Tag", "type") if fn else [], "Tag(..., type=<const>)"), "type= of the dependency listing script (HTMLTextDocument)")
+    emit_str("listingSepText", one("listingSepText", _join_seps(fn) if fn else [], "'<sep>'.join"), "separator of the listing (HTMLTextDocument)")
+    fn = f("head_content")
+    emit_str("headcontentPrefixLit", one("headcontent prefix", [c for c in (_str_consts(fn) if fn else []) if c.endswith("_")], "'…_' literal"), "prefix of head_content names")
+    emit_str("headcontentVersionLit", one("headcontent version", _kwarg_const(fn, "HTMLDependency", "version") if fn else [], "version=<const>"), "version of head_content dependencies")
+    fn = f("Tag.get_html_string")
+    emit_str("indentUnitTag", one("indent unit (Tag)", _mult_units(fn) if fn else [], "'<unit>' * indent"), "indentation unit in Tag.get_html_string")
+    fn = f("TagList.get_html_string")
+    emit_str("indentUnitList", one("indent unit (TagList)", _mult_units(fn) if fn else [], "'<unit>' * indent"), "indentation unit in TagList.get_html_string")
+    fn = f("HTMLTextDocument._static_extract_serialized_html_deps")
+    pats = []
+    if fn is not None:
+        for st in _strip_doc(fn):
+            if isinstance(st, ast.Assign) and any(isinstance(t, ast.Name) and t.id == "pattern" for t in st.targets):
+                if str_const(st.value) is not None:
+                    pats.append(st.value.value)
+    emit_str("extractPattern", one("extraction regex", pats, "pattern = <const>"), "the regex of HTMLTextDocument's extraction")
+    fn = f("HTMLDependency.serialize_to_script_json")
+    reps = _replace_args(fn) if fn else []
+    emit_str("neutraliseFrom", one("neutralise from", [a for a, _ in reps], ".replace(<from>, …)"), "what serialize_to_script_json replaces")
+    emit_str("neutraliseTo", one("neutralise to", [b for _, b in reps], ".replace(…, <to>)"), "… and by what")
+    emit_str("serialTypeLit", one("serialised type", _kwarg_const(fn, "Tag", "type") if fn else [], "Tag(..., type=<const>)"), "type= of the serialised dependency script")
+    for name, fnq, param in [
+        ("dTagIndent", "Tag.get_html_string", "indent"), ("dTagEol", "Tag.get_html_string", "eol"),
+        ("dListIndent", "TagList.get_html_string", "indent"), ("dListEol", "TagList.get_html_string", "eol"),
+        ("dListAddWs", "TagList.get_html_string", "add_ws"), ("dListEscape", "TagList.get_html_string", "_escape_strings"),
+        ("dTagAddWs", "Tag.__init__", "_add_ws"),
+        ("dDocLibPrefix", "HTMLDocument.render", "lib_prefix"), ("dDocInclVersion", "HTMLDocument.render", "include_version"),
+        ("dTextDocLibPrefix", "HTMLTextDocument.render", "lib_prefix"), ("dTextDocInclVersion", "HTMLTextDocument.render", "include_version"),
+        ("dSaveLibdir", "HTMLDocument.save_html", "libdir"), ("dSaveInclVersion", "HTMLDocument.save_html", "include_version"),
+        ("dTagSaveLibdir", "Tag.save_html", "libdir"), ("dListSaveLibdir", "TagList.save_html", "libdir"),
+        ("dAsTagsLibPrefix", "HTMLDependency.as_html_tags", "lib_prefix"), ("dAsTagsInclVersion", "HTMLDependency.as_html_tags", "include_version"),
+        ("dAsDictLibPrefix", "HTMLDependency.as_dict", "lib_prefix"), ("dAsDictInclVersion", "HTMLDependency.as_dict", "include_version"),
+        ("dCopyInclVersion", "HTMLDependency.copy_to", "include_version"), ("dDedup", "TagList.get_dependencies", "dedup"),
+        ("dAllFiles", "HTMLDependency.__init__", "all_files"),
+    ]:
+        emit_dflt(name, fnq, param, f"default of `{param}` in `{fnq}`")
+    text = ("-- GENERATED by harness/translate.py from the source — do not edit.\nimport HtmlVerif.Model.Str\n\n"
+            "namespace HtmlVerif.Generated\nopen HtmlVerif\n\n" + "\n\n".join(defs) + "\n\nend HtmlVerif.Generated\n")
+    return text, problems
+
+
 # ---------------------------------------------------------------- main
 def generate() -> dict:
     info: dict = {"problems": []}
@@ -365,9 +528,11 @@ def tagsAll : List Str := {llist([lstr(s) for s in tags_all])}
 
 end HtmlVerif.Generated
 """
+    consts_text, cproblems = consts_lean(core)
+    info["const_problems"] = cproblems
     os.makedirs(GEN, exist_ok=True)
     changed = []
-    for fn, text in (("Tables.lean", tables), ("TagFns.lean", tagfns)):
+    for fn, text in (("Tables.lean", tables), ("TagFns.lean", tagfns), ("Consts.lean", consts_text)):
         p = os.path.join(GEN, fn)
         old = None
         if os.path.exists(p):
